@@ -21,6 +21,17 @@ def cases_for_doc(cid, abstract, rng):
     text = plssdoc.render_doc(doc, rng)
     out.append({"id": cid + "s", "kind": "c20", "abs": {"kind": "same", "what": "segment"},
                 "args": {"mode": "same", "text": text, "cfg_a": None, "cfg_b": "segment"}})
+    if lay == "TRS_desc":
+        # a block that refers back to its own section and Twp/Rge ('... in Section 14 of T154N-R97W'): the parser
+        # ignores such a reference, and it must not start a new segment either
+        g = rng.choice(doc["groups"])
+        sg = rng.choice(g["secs"])
+        ref = rng.choice([" lying in Section %d of %s along the river", ", less the tract conveyed in Section %d, %s by deed of record"]) % (
+            sg["nums"][0], R.tr_canon(g["tr"]))
+        doc2 = dict(doc, blocks=dict(doc["blocks"]))
+        doc2["blocks"][sg["block"]] = doc["blocks"][sg["block"]] + ref
+        out.append({"id": cid + "b", "kind": "c20", "abs": {"kind": "same", "what": "segment_backref"},
+                    "args": {"mode": "same", "text": plssdoc.render_doc(doc2, rng), "cfg_a": None, "cfg_b": "segment"}})
     if lay in ("TRS_desc", "S_desc_TR"):
         for what, cfg in (("all_colons_cautious", "sec_colon_cautious"), ("all_colons_required", "sec_colon_required")):
             out.append({"id": cid + what[11], "kind": "c20", "abs": {"kind": "same", "what": what},
@@ -114,7 +125,8 @@ def run(ctx):
         raise core.MachineryFailure("no C20 cases")
     check(ctx, cases)
     ctx.rule = ("paired parses of documents whose shapes are enumerated by spec/PlssDoc.tla (%d%% seeded sample of all shapes "
-                "within %d groups x %d section groups): default vs segment; all-colon text vs both colon modes; colon-less "
+                "within %d groups x %d section groups): default vs segment (Twp/Rge-Sec-desc documents also with a block that "
+                "refers back to its own section and Twp/Rge); all-colon text vs both colon modes; colon-less "
                 "text vs cautious (same tracts + warning) and required (one whole-text tract); plus sec_within texts "
                 "(3 list kinds x 4 Twp/Rge placements x random leading/trailing text); non-trivial = distinct "
                 "(relation, text)" % (int(keep * 100), base["MaxGroups"], base["MaxSecs"]))
